@@ -737,17 +737,21 @@ char *search_include_paths(char *filename) {
   if (filename[0] == '/')
     return filename;
 
+  // The cache remembers in which include path a file was found
+  // (as index + 1), so that #include_next knows where to go on.
   static HashMap cache;
-  char *cached = hashmap_get(&cache, filename);
-  if (cached)
-    return cached;
+  int idx = (intptr_t)hashmap_get(&cache, filename) - 1;
+  if (idx >= 0) {
+    include_next_idx = idx + 1;
+    return format("%s/%s", include_paths.data[idx], filename);
+  }
 
   // Search a file from the include paths.
   for (int i = 0; i < include_paths.len; i++) {
     char *path = format("%s/%s", include_paths.data[i], filename);
     if (!file_exists(path))
       continue;
-    hashmap_put(&cache, filename, path);
+    hashmap_put(&cache, filename, (void *)(intptr_t)(i + 1));
     include_next_idx = i + 1;
     return path;
   }
